@@ -29,8 +29,8 @@ claim("C17",
       "Symlink/file_type semantics are OS behaviour modelled as an entry kind.",
       "Coq proof (codec round trip) + checked model/code correspondence")
 claim("C04",
-      'Coq theorems (PropC04.v): within an incarnation the next position never decreases, appended positions strictly increase and are fresh, and after truncate(..=p) the next position is >= p+1 - live for every history (specification level, transferred by refinement), across clean restarts anywhere (a restart never changes a next position, even for an emptied queue whose WAL files were all deleted), and after recovery from any crash image under any policy (recovered next positions are those of a specification state at least as recent as the persist point). Tied to the code by differential execution plus a high-water-mark oracle over restarts and crash images of histories in which emptied queues stay idle while every file that mentioned them is garbage-collected.',
-      'Crash half inherits the premises of C03_process_crash (incl. no_zero_collision, which only concerns payload bytes, not positions). Power-loss recovery: oracle only.',
+      'Coq theorems (PropC04.v): within an incarnation the next position never decreases, appended positions strictly increase and are fresh, and after truncate(..=p) the next position is >= p+1 - live for every history (specification level, transferred by refinement), across clean restarts anywhere (a restart never changes a next position, even for an emptied queue whose WAL files were all deleted), and after recovery from any crash image and any power-loss image under any policy (recovered next positions are those of a specification state at least as recent as the persist point). Tied to the code by differential execution plus a high-water-mark oracle over restarts and crash images of histories in which emptied queues stay idle while every file that mentioned them is garbage-collected.',
+      'Crash half inherits the premises of C03_process_crash (incl. no_zero_collision, which only concerns payload bytes, not positions); power-loss recovery: PowerCorollaries.power_next_positions / power_next_after_persist (same premises).',
       'Coq proof (monotonicity on the spec, refinement, end-to-end restart and crash theorems) + checked model/code correspondence + crash/restart oracle')
 claim("C06",
       "Coq theorems (PropC06.v): the GC loop removes exactly a prefix of unreferenced files and never stops early; every call keeps the tracked files a contiguous run ending at the "
@@ -49,10 +49,10 @@ claim("C10",
       "Coq theorems (PropC10.v): for EVERY directory content (any names, kinds, lengths, bytes) and any fault plan, open terminates (explicit fuel bound, fuel monotonicity) and any log it returns satisfies the "
       "representation invariant; panic freedom by enumeration of the panic sites of the Rust code (every slice, index, unwrap, assert, split_at, copy_from_slice of open and of the read accessors, each with its "
       "source location and a guard proved to hold): the read half for ANY directory, the recovery-time GC when no WAL file is longer than a full file, the read accessors on whatever open returns, and - for debug "
-      "builds - no arithmetic overflow when decoded positions stay below 2^64-1. The two premises are needed: known findings F9 (over-long last file: assert in RollingWriter::write) and F6 (record at position "
+      "builds - no arithmetic overflow when decoded positions stay below 2^64-1; allocation: what open builds in memory, and the reader's assembly buffer, are bounded by 2 x (total WAL bytes + one file) for ANY directory (AllocBound.v). The two premises are needed: known findings F9 (over-long last file: assert in RollingWriter::write) and F6 (record at position "
       "u64::MAX), both found by these proofs and reproduced on the crate on every run under catch_unwind with a watchdog, together with damaged / truncated / removed / duplicated files, stray entries, random "
       "and CRC-valid forged blocks.",
-      "The enumeration of panic sites is by reading the Rust source, kept tied to it by a per-function census of syntactic panic sites compared on every run (tools/panic_census.py, panic_sites.json); time arithmetic, in-memory size counters and allocation failure are not covered.",
+      "The enumeration of panic sites is by reading the Rust source, kept tied to it by a per-function census of syntactic panic sites compared on every run (tools/panic_census.py, panic_sites.json); time arithmetic, overflow of in-memory size counters and allocation failure are not covered.",
       "Coq proof (termination measure; guards at enumerated panic sites) + checked model/code correspondence + catch_unwind oracle")
 claim("C11",
       "Coq theorems (PropC11.v): with a fault plan armed on read_dir / open / read, if the injected failure is reached then open returns an I/O error — never Ok, never Corruption, never a hang "
@@ -69,8 +69,8 @@ claim("C14",
       "metamorphic oracle running each history under seven policies.",
       "", "Coq proof (erasure/equivalence relation preserved by every call) + checked model/code correspondence + metamorphic oracle")
 claim("C18",
-      "Coq theorems (PropC18.v): removing from any history the calls addressed to other queues changes neither q's content (range, last_position, last_record) nor the logical outcomes of q's calls - live for every history, across clean restarts anywhere, and after recovery from any crash image under any policy (what q recovers to is determined by the calls addressed to q alone, whatever file deletions the other queues' calls triggered); replay of an entry touches only the queue it names. Tied to the code by differential execution plus a metamorphic oracle (h versus h|q on the real crate, across restarts and GC).",
-      'Crash half inherits the premises of C03_process_crash. Power-loss recovery: oracle only.',
+      "Coq theorems (PropC18.v): removing from any history the calls addressed to other queues changes neither q's content (range, last_position, last_record) nor the logical outcomes of q's calls - live for every history, across clean restarts anywhere, and after recovery from any crash image under any policy (what q recovers to is determined by the calls addressed to q alone, whatever file deletions the other queues' calls triggered); replay of an entry touches only the queue it names. Tied to the code by differential execution plus a metamorphic oracle (h versus h|q on the real crate, across restarts and GC, and across a crash inside another queue's call - torn writes, block-boundary tears - followed by a continuation and a second restart).",
+      'Crash and power-loss halves (crash_projection, power_projection) inherit the premises of C03_process_crash / C03_power_loss.',
       'Coq proof (locality of the spec step, refinement, end-to-end restart and crash theorems) + checked model/code correspondence + metamorphic oracle')
 claim("C01",
       "Coq theorems (PropC01.v), END TO END: C01_restart_identity - for every history of well-formed calls with clean restarts anywhere, from a fresh directory, dropping the log and opening the "
@@ -82,10 +82,10 @@ claim("C01",
       "Coq proof (global invariant by induction over calls and restarts; refinement to the spec with restarts as no-ops) + checked model/code correspondence + restart oracle")
 claim("C08",
       "Coq theorems (PropC08.v): for ANY directory content the queues returned by open have strictly increasing positions and consistent payload offsets; whatever decodes as an entry is exactly the "
-      "serialization of that entry; replay inserts exactly the records the entries carry; under CRC-detected damage of any set of frames the entries delivered are a subsequence of those written. "
+      "serialization of that entry; replay inserts exactly the records the entries carry; under CRC-detected damage of any set of frames the entries delivered are a subsequence of those written; under ARBITRARY damage inside one block (frame headers included) they are a sub-list of those written provided only genuine frames verify on the reader's path through that block. "
       "The unrestricted statement is false (known finding F4: a payload embedding a CRC-valid frame plus a damaged length field). Tied to the code by differential execution on frame-aimed and random "
       "in-place damage, with an oracle comparing recovered records against every record ever appended.",
-      "Length/type-field damage is covered by the oracle, not by a theorem; CRC-32 collision resistance is outside any proof.",
+      "Length/type-field damage: stream-level theorem for arbitrary damage inside ONE block under the hypothesis NoEmbeddedPath (HeaderDamage.header_damage_sublist; F4 violates exactly that hypothesis: NoEmbedded_necessary), not yet lifted through open over files; several damaged blocks: oracle only. CRC-32 collision resistance is outside any proof.",
       "Coq proof (invariant for all images, codec soundness, damaged-stream theorem) + checked model/code correspondence + damage oracle")
 claim("C09",
       'Coq theorems (PropC09.v), END TO END: C09_damage_costs_one_entry / C09_from_fresh - from any state satisfying the global invariant (any history with restarts), after a clean drop, with the checksum/payload bytes of one frame of entry X damaged so that its CRC fails, open succeeds and every retained record not appended by X is still there with the same position and payload; layers: open over damaged files replays exactly the intact entries, replaying a legal log with one entry removed never fails and keeps every other record, stream-level theorems for any number of damaged frames (every block size and checksum function). Tied to the code by differential execution plus an oracle that damages every sampled writer frame (layout derived from the I/O trace) and requires all un-hit appends intact.',
